@@ -155,7 +155,7 @@ func checkC04(c *Check) {
 	// arrived (C01), and an ended session does not stay around to be bound
 	// again (C09)
 	nb := importRules(c, "C01", checkC01, "bound-means-matching-login: ", "bind-is-PID-justified", "who-may-write-identity")
-	nb += importRules(c, "C09", checkC09, "ended-session-released: ", "end-evidence-complete", "release-on-end", "end-record-held: event-reaches-correlation", "end-record-held: hold-keeps-queue")
+	nb += importRules(c, "C09", checkC09, "ended-session-released: ", "end-evidence-complete", "release-on-end", "end-record-held: event-reaches-correlation", "end-record-held: hold-keeps-queue", "end-record-held: hold-keeps-event", "map-contract")
 	c.Floor("imported bound-means-matching-login / ended-session-released obligations", 5, nb)
 
 	// 4. bound flag only by bind; appends only for own session
